@@ -1,6 +1,6 @@
 (* Props/C13.v -- property C13: UAC INVITE: responses map deterministically to early dialogs, sessions, failure *)
 From Coq Require Import List NArith Bool.
-From EZK Require Import Model.Forms8 Proofs.Forms8 Gen.Tables Lib.Bytes Model.C13 Proofs.C13 Model.C13q Proofs.C13q.
+From EZK Require Import Model.Forms9 Proofs.Forms9 Model.Forms8 Proofs.Forms8 Gen.Tables Lib.Bytes Model.C13 Proofs.C13 Model.C13q Proofs.C13q.
 Import ListNotations.
 Open Scope N_scope.
 
@@ -98,3 +98,17 @@ Proof. exact fork_inside_window. Qed.
 
 Theorem C13_timer_m_zero_refuted : forall d, fork_2xx_delivered_form false true d = false.
 Proof. exact fork_lost_on_reliable. Qed.
+
+(* "a 3xx-6xx ... terminates every early dialog": the list is drained, every entry is told; removing entry idx and then advancing idx
+   tells every other one only - the second early dialog is never told *)
+Theorem C13_early_drained_guard : early_dialogs_drained = true.
+Proof. reflexivity. Qed.
+
+Theorem C13_failure_terminates_every_early : early_dialogs_drained = true -> forall (A : Type) (l : list A), terminated l = l.
+Proof. exact terminated_here. Qed.
+
+Theorem C13_every_other_refuted : forall (A : Type) (a b : A) (r : list A), ~ In b (a :: r) -> ~ In b (terminated_form false (a :: b :: r)).
+Proof. exact every_other_skips_second. Qed.
+
+Theorem C13_every_other_fewer : forall (A : Type) (l : list A), (2 <= length l)%nat -> (length (terminated_form false l) < length l)%nat.
+Proof. exact every_other_length. Qed.
